@@ -129,6 +129,26 @@ fn case(t: &mut Tape, info: &mut CaseInfo) -> Result<(), String> {
     same("settings through individual setters (map path) vs Performance::difficulty", &via_setters(perf_for_mode(&c.map, c.target)), &r_map)?;
     same("settings through individual setters (attribute path) vs map path", &via_setters(Performance::new(a.clone())), &r_map)?;
     info.comparisons += 2;
+    // map path entered through the osu! builder with the score given *before* the switch to the target mode
+    // (setters that mean different things in the two modes are left out) vs the attribute path
+    if c.map.mode == GameMode::Osu && !c.map.is_convert {
+        let mut carried = score.clone();
+        carried.n_katu = None;
+        carried.n_geki = None;
+        carried.large_tick_hits = None;
+        carried.small_tick_hits = None;
+        carried.slider_end_hits = None;
+        carried.state = None;
+        let from_attrs = carried.apply(Performance::new(a.clone()).difficulty(c.d.clone())).calculate();
+        let switched = carried.apply(Performance::new(&c.map).difficulty(c.d.clone())).mode_or_ignore(c.target).calculate();
+        same("score set on the osu! builder, then mode_or_ignore(target) (map path) vs attribute path", &switched, &from_attrs)?;
+        if let Ok(p) = carried.apply(Performance::new(c.map.clone()).difficulty(c.d.clone())).try_mode(c.target) {
+            same("score set on the osu! builder, then try_mode(target) (map path) vs attribute path", &p.calculate(), &from_attrs)?;
+        } else {
+            return Err("try_mode refused a possible conversion".into());
+        }
+        info.comparisons += 2;
+    }
     // mode-specific try_new on a foreign mode must refuse
     if let DifficultyAttributes::Taiko(_) = &a {
         if rosu_pp::osu::OsuPerformance::try_new(a.clone()).is_some() {
@@ -138,7 +158,6 @@ fn case(t: &mut Tape, info: &mut CaseInfo) -> Result<(), String> {
     info.label_if(c.dspec.passed.is_some(), "passed_objects");
     info.nontrivial = !score.is_default() && r_map.pp() > 0.0 && !c.dspec.is_default();
     info.set_key(&format!("{:?}{:?}{:?}{score:?}", c.spec, c.dspec, c.target));
-    let _ = GameMode::Osu;
     Ok(())
 }
 
@@ -147,7 +166,7 @@ pub fn property() -> Property {
         id: "C04",
         subchecks: vec![SubCheck {
             name: "attrs-path-vs-map-path",
-            rule: "G-MAP (all modes + converts, <=50 objects) x G-DIFF incl. passed_objects (0..N+3, u32::MAX) x score builder spec (each of accuracy/combo/misses/every hit-result setter independently absent or 0..N+3, occasionally >>N, both priorities). Oracle: result of the mode-specific builder on the map == result from 12 other entry points (generic Performance::new on the explicitly converted map by ref/value, map.performance(), Performance::new/from(DifficultyAttributes), attrs.performance(), mode-specific attrs.performance()/Performance::new(attrs), the same for PerformanceAttributes incl. try_new) with the same Difficulty and score setters applied, plus the same settings supplied through the individual Performance setters in a generated order on both the map and the attribute path; embedded difficulty == one-shot difficulty. Non-trivial: score spec non-default, pp>0, settings non-default.",
+            rule: "G-MAP (all modes + converts, <=50 objects) x G-DIFF incl. passed_objects (0..N+3, u32::MAX) x score builder spec (each of accuracy/combo/misses/every hit-result setter independently absent or 0..N+3, occasionally >>N, both priorities). Oracle: result of the mode-specific builder on the map == result from 12 other entry points (generic Performance::new on the explicitly converted map by ref/value, map.performance(), Performance::new/from(DifficultyAttributes), attrs.performance(), mode-specific attrs.performance()/Performance::new(attrs), the same for PerformanceAttributes incl. try_new) with the same Difficulty and score setters applied, plus the same settings supplied through the individual Performance setters in a generated order on both the map and the attribute path; for osu! sources the score set on the osu! builder before try_mode / mode_or_ignore(target) vs the attribute path; embedded difficulty == one-shot difficulty. Non-trivial: score spec non-default, pp>0, settings non-default.",
             quick: 40_000,
             thorough: 200_000,
             tape_len: 1500,
